@@ -397,6 +397,31 @@ pub fn glue17(out: &mut Out, thorough: bool) {
             }
         }
     }
+    // started WITH a position the program must not consult the book at all, even when the placement is the initial one:
+    // the first thing it prints is that very position (it is stopped there)
+    for fen in [
+        "rnbqkbnr/pppppppp/8/8/8/8/PPPPPPPP/RNBQKBNR b KQkq - 0 1",
+        "rnbqkbnr/pppppppp/8/8/8/8/PPPPPPPP/RNBQKBNR w - - 0 1",
+        "rnbqkbnr/pppppppp/8/8/8/8/PPPPPPPP/RNBQKBNR w KQkq - 0 0",
+        "rnbqkbnr/pppppppp/8/8/8/8/PPPPPPPP/RNBQKBNR w Kq - 12 30",
+        "rnbqkbnr/pppp1ppp/8/4p3/4P3/8/PPPP1PPP/RNBQKBNR w KQkq e6 0 2",
+    ] {
+        out.case("cli-no-book-from-a-position", true, format!("glue cliarg {}", hexbytes(fen.as_bytes())), || {
+            let (code, _so, lines) = cli_run(Some(fen), 3000, true);
+            // the Debug diagram of the book loop starts with "turn:"; the game loop prints the FEN line first
+            let first = lines.iter().find(|l| !l.trim().is_empty()).cloned().unwrap_or_default();
+            match code {
+                Some(c) if c != 0 => format!("trap exit={c} {}", lines.iter().find(|l| l.contains("panicked")).cloned().unwrap_or_default().chars().take(80).collect::<String>()),
+                _ => {
+                    if is_fen_line(&first) {
+                        format!("accepted {}", hexbytes(first.as_bytes()))
+                    } else {
+                        format!("book-consulted-from-a-given-position:{}", first.chars().take(40).collect::<String>())
+                    }
+                }
+            }
+        });
+    }
     if !rests.is_empty() {
         let ans = vec!["rest"; rests.len()].join(" ");
         out.record("cli-book-rest", true, format!("book rest {}", rests.join(" ")), ans);
